@@ -85,6 +85,59 @@ def impl_case(case):
 def strip_zero(den):
     return den
 
+def sys_case(case):
+    """the component wrapped into a one-instance system whose signal is bound to a super-sequence port that has a
+    zero-length member; compiled with both back-ends, with and without the zero-length member"""
+    import implrun
+    out = {}
+    for tag in ("base", "zero"):
+        files = {"prog.comp": case[tag], "top.sys": case["sys"]}
+        r = {}
+        for synth in (True, False):
+            c = implrun.compile_files(files, "top", synth=synth)
+            r["pil" if synth else "des"] = {"outcome": c["outcome"], "text": c.get("text"), "error": c.get("error")}
+        out[tag] = r
+    return out
+
+def des_problem(text):
+    """why a .des file cannot be processed: a sequence used in an assignment is never defined"""
+    from props import c03
+    try: lines = c03.read_des(text)
+    except ValueError as e: return "unreadable line %s" % e
+    defined = {l[1] for l in lines if l[0] == "sequence"}; structs = {l[1] for l in lines if l[0] == "structure"}
+    for l in lines:
+        if l[0] == "assign":
+            if l[1] not in structs: return "assignment to undefined structure %s" % l[1]
+            for n, st in l[2]:
+                if n not in defined: return "structure %s uses undefined sequence %s" % (l[1], n)
+    return None
+
+def sys_leg(rng, k):
+    """components with a port `zport = a <zero-length>` instantiated in a system"""
+    cases = []
+    for _ in range(k * 6):
+        if len(cases) >= k: break
+        prog = pepper.CompGen(rng, name="prog", allow_zero=False).build()
+        bases = [st[1] for st in prog["body"] if st[0] == "seq" and len(st[2]) == 1 and st[2][0][0] == "nuc" and st[3] is None
+                 and all(p[0] not in ("?",) and p[0] > 0 for p in st[2][0][1])]
+        if not bases: continue
+        a = rng.choice(bases)
+        def variant(with_zero):
+            p = copy.deepcopy(prog)
+            extra = []
+            if with_zero:
+                extra.append(["seq", "zz", [["nuc", [[0, "N"]]]], None])
+            items = [["ref", a, False]] + ([["ref", "zz", rng.random() < 0.5]] if with_zero else [])
+            if with_zero and rng.random() < 0.5: items.reverse()
+            idx = max(i for i, st in enumerate(p["body"]) if st[0] == "seq" and st[1] == a) + 1
+            p["body"][idx:idx] = extra + [["seq", "zport", items, None]]
+            p["decl"] = [p["decl"][0], [], [["zport", False, None]]]
+            return p
+        pb, pz = variant(False), variant(True)
+        sysfile = "declare system top: -> \nimport prog\ncomponent g1 = prog: -> sx\ncomponent g2 = prog: -> sx\n"
+        cases.append({"base": pepper.comp_text(rng, pb), "zero": pepper.comp_text(rng, pz), "sys": sysfile})
+    return cases
+
 def run(tier, seed, build):
     rng = random.Random(seed * 419 + 14)
     n = 250 if tier == "quick" else 4000
@@ -133,8 +186,32 @@ def run(tier, seed, build):
                 failures.append({"kind": "predicate", "key": "arrays-" + lay, "summary": "designer front-end (%s layout) gives different arrays / fails once zero-length domains are inserted: %s" % (lay, a2.get("error", "arrays differ")[:150]), "replay": rep})
         if z["arrays"]["strand"]["outcome"] == "ok" and z.get("finish", {}).get("outcome") != "ok":
             failures.append({"kind": "predicate", "key": "finish", "summary": "the finisher cannot process the program with zero-length domains: %s" % str(z.get("finish"))[:200], "replay": rep})
-    return {"evaluations": len(cases), "distinct_nontrivial": len(nontrivial),
-            "rule": "generated components without zero-length domains, and the same with zero-length base sequences (\"0N\", \"?S\" : 0, several zero parts), zero-length super-sequences, zero-length anonymous regions inserted first / middle / last into super-sequences and strands, starred, through domains(), and as the last definition; both compiled; designs compared modulo anonymous numbering, designer arrays compared in both layouts, the zero-length variant pushed through fill -> .mfe -> finish. Non-trivial = at least one insertion into an item list and both variants accepted",
+    # system leg: a signal bound to a super-sequence port with a zero-length member, both back-ends
+    scases = sys_leg(rng, 12 if tier == "quick" else 150)
+    simpl = fw.run_impl("props.c14", "sys_case", scases, per_case_timeout=60)
+    dist["system_cases"] = len(scases)
+    for sc, r in zip(scases, simpl):
+        rep = {"files": {"prog.comp": sc["zero"], "top.sys": sc["sys"], "without_zero_length.comp": sc["base"]}, "reproduce": "pepper-compiler top (and with --des)"}
+        if not isinstance(r, dict) or "zero" not in r:
+            failures.append({"kind": "disagreement", "key": "impl-run", "summary": "runner failed: %r" % (r,), "replay": rep}); continue
+        for be in ("pil", "des"):
+            b, z = r["base"][be], r["zero"][be]
+            if b["outcome"] != "ok": continue
+            if z["outcome"] != "ok":
+                failures.append({"kind": "predicate", "key": "sys-zero-rejected:" + be, "summary": "a zero-length member in a port's super-sequence makes the system fail (%s back-end): %s" % (be, (z.get("error") or "")[:120]), "replay": rep}); continue
+            if be == "des":
+                why = des_problem(z["text"])
+                if why:
+                    failures.append({"kind": "predicate", "key": "sys-des", "summary": "with a zero-length member in a port's super-sequence the .des cannot be processed: " + why, "replay": rep})
+            else:
+                try:
+                    d1 = c10.rename_anon(pepper.den_pil(pepper.read_pil(b["text"])), 0); d2 = c10.rename_anon(pepper.den_pil(pepper.read_pil(z["text"])), 0)
+                    if d1 != d2:
+                        failures.append({"kind": "predicate", "key": "sys-den-changed", "summary": "a zero-length member in a port's super-sequence changes the system's emitted design", "replay": rep})
+                except ValueError as e:
+                    failures.append({"kind": "predicate", "key": "sys-pil-illformed", "summary": "system .pil not well formed with a zero-length member: %s" % e, "replay": rep})
+    return {"evaluations": len(cases) + 4 * len(scases), "distinct_nontrivial": len(nontrivial),
+            "rule": "generated components without zero-length domains, and the same with zero-length base sequences (\"0N\", \"?S\" : 0, several zero parts), zero-length super-sequences, zero-length anonymous regions inserted first / middle / last into super-sequences and strands, starred, through domains(), and as the last definition; both compiled; designs compared modulo anonymous numbering, designer arrays compared in both layouts, the zero-length variant pushed through fill -> .mfe -> finish; plus components with an output port `zport = a <zero-length>` instantiated twice in a system on one signal, compiled with the PIL and the NUPACK back-end with and without the zero-length member (same design; every sequence a .des assignment uses must be defined). Non-trivial = at least one insertion into an item list and both variants accepted",
             "samples": [c["zero"] for c in cases[:2]], "distribution": dist, "failures": failures}
 
 def replay(path):
